@@ -156,7 +156,9 @@ theorem connects_deliver (cfg : Cfg) (c : Cli) (e : Ev) : connects (deliver cfg 
   | lost =>
     simp only [deliver, onLost]
     split
-    · exact connects_onEioDisconnect _ _ _
+    · rw [connects_append, connects_onEioDisconnect]
+      rcases startEffort_eq { (onEioDisconnect cfg c rTransport).1 with eio := .disconnected } with h | h <;>
+        rw [h] <;> simp [connects_cons, connectOf]
     · rfl
   | close => exact connects_eioDisconnect _ _ _
 
